@@ -16,6 +16,13 @@ Hypotheses that occur:
   `C09_quadratic_expansion_asymmetric_weights_fails`, `C09_quadratic_H_symmetric_asymmetric_weights_fails` are the negative
   witnesses, and every theorem that needs `SymWeights` is named `…_partial`.
 * non-negative weights, kappa and penalisation factor for positive semi-definiteness (the domain of "penalty weights").
+  For an OBJECT that never got user weights the hypothesis is discharged by `C09_object_history_keeps_symmetric_weights`: whichever
+  API function is called first (each has its own copy of the lazy `compute_weights` block), whatever grid spacings the images of
+  the later calls have and however often `set_up` is called in between, the weights the object holds are symmetric and non-negative —
+  so all `…_partial` theorems apply to every state such an object can reach, the stale one
+  (`C09_default_weights_stale_after_set_up_fails`) included.  For weights given with `weights :=` and an even size in some dimension the
+  index range is not symmetric; `C09_even_weights_are_zero_padded` says that value, gradient and Hessian-times-vector are those of the
+  symmetric range with zeros appended, to which the theorems then apply (if the padded weights are symmetric).
 No hypothesis on the centre weight `w 0 0 0` is needed any more (`C09_nonzero_centre_weight_is_covered`).
 PLSPrior: derivative of the value with respect to every single voxel (partial derivatives), scaling, uniform images.
 Not covered by theorems (correspondence run + oracle only): float rounding; the RDP derivative statements at
@@ -23,6 +30,7 @@ points with equal neighbouring values (`C09_rdp_derivatives_at_equal_values`); P
 -/
 import StirVerif.C09.ProofsImage
 import StirVerif.C09.ProofsPls
+import StirVerif.C09.ProofsObj
 
 namespace StirVerif.C09
 
@@ -65,7 +73,9 @@ theorem C09_logcosh_hessian_row_eq_H_unit_partial (s pf : ℝ) (w : Img ℝ) (κ
 
 /-! ### "The Hessian is symmetric" -/
 
-/-- `⟨u, H v⟩ = ⟨v, H u⟩` where `H v` is what `accumulate_Hessian_times_input` adds to its output
+/-- `⟨u, H v⟩ = ⟨v, H u⟩` where `H v` is what `accumulate_Hessian_times_input` adds to its output.
+    (Applies to the members of an object in every state it can reach without user weights — first call of any API function, images of
+    other voxel sizes, repeated `set_up` —, see `C09_object_history_keeps_symmetric_weights`; same for the other `…_partial` theorems.)
     Partial: `SymWeights` is assumed (the clause fails for asymmetric user weights, known finding `weights:asymmetric-user-weights`). -/
 theorem C09_H_symmetric_partial (d20 d11 : K → K → K) (pf : K) (w : Img K) (κ : Option (Img K)) (b wb : Box) (cur u v : Img K)
     (hw : SymWeights wb w) (h11 : ∀ a c : K, d11 a c = d11 c a) :
@@ -391,6 +401,89 @@ theorem C09_nonzero_centre_weight_is_covered :
     have : (-dx = 0) ↔ (dx = 0) := by omega
     simp only [this]
   exact ⟨hs, by simp [nWcentre], C09_quadratic_value_expansion_partial 1 nWcentre none nB nWB nLam nE 1 hs⟩
+
+/-! ### the prior object: lazily computed default weights, `set_up`, `weights :=`
+
+"… for every image size, voxel spacing, neighbourhood weights …": the weights an OBJECT uses are not an argument of the API functions but
+a member that the first call fills in (`NbPrior.afterCall`, the block `if (weights.get_length() == 0) compute_weights(…)` that occurs in
+each of `compute_value`, `compute_gradient`, `compute_Hessian`, `parabolic_surrogate_curvature`,
+`add_multiplication_with_approximate_Hessian`, `accumulate_Hessian_times_input` of the three classes). -/
+
+/-- the default weights (`compute_weights`) are symmetric with a symmetric index range, for every grid spacing and `only_2D`, and
+    non-negative for a non-negative x-voxel size: the hypotheses `SymWeights` / `0 ≤ w` of the theorems above hold for them -/
+theorem C09_default_weights_symmetric (only2D : Bool) (sz sy sx : ℝ) :
+    SymWeights (defaultWeightsBox only2D) (defaultWeights (fun n : Int => (n : ℝ)) sz sy sx)
+    ∧ (0 ≤ sx → ∀ dz dy dx, 0 ≤ defaultWeights (fun n : Int => (n : ℝ)) sz sy sx dz dy dx) :=
+  ⟨defaultWeights_symmetric only2D sz sy sx, fun hx dz dy dx => defaultWeights_nonneg sz sy sx hx dz dy dx⟩
+
+/-- the weights are computed ONCE: after a call of any API function (with an image of grid spacing `s1`) a second call of any API
+    function with an image of any grid spacing `s2` leaves the object as it is -/
+theorem C09_weights_computed_once {K : Type} [Zero K] [BEq K] (dflt : K → K → K → Img K) (o : NbPrior K)
+    (s1z s1y s1x s2z s2y s2x : K) :
+    (o.afterCall dflt s1z s1y s1x).afterCall dflt s2z s2y s2x = o.afterCall dflt s1z s1y s1x :=
+  afterCall_afterCall dflt o s1z s1y s1x s2z s2y s2x
+
+/-- an object made by a constructor (no user weights) holds, after ANY history of calls with images of any grid spacings (x-voxel
+    size ≥ 0) and `set_up`s in between, either no weights yet or symmetric, non-negative weights with a symmetric index range: the
+    `…_partial` theorems apply to the loops run on its members in every reachable state -/
+theorem C09_object_history_keeps_symmetric_weights (kind : Nat) (only2DArg : Bool) (pf γ ε s : ℝ) (l : List (ℝ × ℝ × ℝ))
+    (hl : ∀ sp ∈ l, 0 ≤ sp.2.2) :
+    let o := l.foldl (fun o sp => (o.afterCall (defaultWeights fun n : Int => (n : ℝ)) sp.1 sp.2.1 sp.2.2).setUp)
+      (NbPrior.ctor kind only2DArg pf γ ε s)
+    weightsEmpty o.wb = true ∨ (SymWeights o.wb o.w ∧ ∀ dz dy dx, InBox o.wb dz dy dx → 0 ≤ o.w dz dy dx) :=
+  history_invariant l hl _ (Or.inl (by simp only [NbPrior.ctor]; decide))
+
+/-- NEGATIVE witness ("every voxel spacing", known finding `neighbourhood-priors:default-weights-stale-after-set_up-with-other-voxel-size`):
+    `QuadraticPrior(false, 1)` used once with an image of voxel size (1,1,1), set up again and asked for the value of the 1×2×1 image
+    `(3, 1)` of voxel size (z,y,x) = (1,2,1) answers 2 (weight of the y-neighbour still 1); a fresh object answers 1 (weight
+    x-size / distance = 1/2).  Replayed on the implementation by the harness. -/
+theorem C09_default_weights_stale_after_set_up_fails :
+    (((NbPrior.ctor 0 false (1 : ℝ) 0 0 0).call sDflt 1 1 1 (fun _ => ())).1.setUp.call sDflt 1 2 1
+        (fun o => qValue o.pf o.w o.kappa sB o.wb sLam)).2 = 2
+    ∧ ((NbPrior.ctor 0 false (1 : ℝ) 0 0 0).call sDflt 1 2 1 (fun o => qValue o.pf o.w o.kappa sB o.wb sLam)).2 = 1 :=
+  stale_witness
+
+/-- `post_processing`: `size` weights along a dimension get the indices `-h .. h` for `size = 2h+1` and `-h .. h-1` for `size = 2h`
+    ("the middle element gets index 0"; even: "I'll (effectively) make this odd by appending a 0 at the end") -/
+theorem C09_parsed_weights_index_range (h : Nat) :
+    parsedRange (2 * h + 1) = (-(h : Int), (h : Int)) ∧ parsedRange (2 * h) = (-(h : Int), (h : Int) - 1) :=
+  ⟨parsedRange_odd h, parsedRange_even h⟩
+
+section padding
+variable {K : Type} [Field K] [DecidableEq K]
+
+/-- "… make this odd by appending a 0 at the end": value, gradient and Hessian-times-vector computed with the index range that
+    `post_processing` gives to `nz × ny × nx` weights are those computed with the symmetric range `-(n/2) .. n/2` and weights that
+    vanish on the added offsets (for every potential with `term 0 a c = 0`, i.e. all three priors) -/
+theorem C09_even_weights_are_zero_padded (term : K → K → K → K) (d10 d20 d11 : K → K → K) (pf : K) (w : Img K) (κ : Option (Img K))
+    (b : Box) (nz ny nx : Nat) (img inp : Img K) (hterm : ∀ a c, term 0 a c = 0)
+    (h0 : ∀ dz dy dx, InBox (paddedBox nz ny nx) dz dy dx → ¬ InBox (parsedBox nz ny nx) dz dy dx → w dz dy dx = 0) (z y x : Int) :
+    SymBox (paddedBox nz ny nx)
+    ∧ valueSum term w κ b (parsedBox nz ny nx) img = valueSum term w κ b (paddedBox nz ny nx) img
+    ∧ gradCore d10 pf w κ b (parsedBox nz ny nx) img z y x = gradCore d10 pf w κ b (paddedBox nz ny nx) img z y x
+    ∧ hessTimesCore d20 d11 pf w κ b (parsedBox nz ny nx) img inp z y x
+        = hessTimesCore d20 d11 pf w κ b (paddedBox nz ny nx) img inp z y x :=
+  ⟨paddedBox_sym nz ny nx,
+   valueSum_zero_extend term w κ b _ _ img hterm (parsedBox_sub_paddedBox nz ny nx) h0,
+   gradCore_zero_extend d10 pf w κ b _ _ img (parsedBox_sub_paddedBox nz ny nx) h0 z y x,
+   hessTimesCore_zero_extend d20 d11 pf w κ b _ _ img inp (parsedBox_sub_paddedBox nz ny nx) h0 z y x⟩
+
+end padding
+
+/-- non-vacuity: `{{{1, 2}}}` (1×1×2 weights) gets the x-range `-1 .. 0`, the padded range is `-1 .. 1`, and the offset `+1` is the one
+    that is added -/
+example : parsedBox 1 1 2 = ⟨0, 0, 0, 0, -1, 0⟩ ∧ paddedBox 1 1 2 = ⟨0, 0, 0, 0, -1, 1⟩
+    ∧ InBox (paddedBox 1 1 2) 0 0 1 ∧ ¬ InBox (parsedBox 1 1 2) 0 0 1 := by decide
+
+/-- non-vacuity: the potentials of the three priors vanish for a zero weight -/
+example : (∀ a c : ℚ, qTerm 0 a c = 0) ∧ (∀ γ ε a c : ℝ, rdpTerm γ ε 0 a c = 0) ∧ (∀ s a c : ℝ, lcTerm s 0 a c = 0) := by
+  refine ⟨fun a c => by simp [qTerm], fun γ ε a c => by unfold rdpTerm; split_ifs <;> simp, fun s a c => by simp [lcTerm]⟩
+
+/-- non-vacuity of `C09_object_history_keeps_symmetric_weights`: a history of two images with different voxel sizes -/
+example : ∀ sp ∈ [((1 : ℝ), (1 : ℝ), (1 : ℝ)), (2, 3 / 2, 5 / 4)], (0 : ℝ) ≤ sp.2.2 := by
+  intro sp h
+  simp only [List.mem_cons, List.mem_nil_iff, or_false] at h
+  rcases h with rfl | rfl <;> norm_num
 
 /-! ### clauses that are stated but NOT proved -/
 
